@@ -25,3 +25,26 @@ theorem C35_admits_below_limit (s : Server) (k : Connect) (c : Client) (h : s.in
   (repeat' split at hr) <;> simp_all <;> omega
 
 end Mochi.Broker
+
+namespace Mochi.Broker
+
+/-- the connections that are established (open, not the inline client) -/
+def established (s : Server) : Nat :=
+  (s.clients.filter fun (_, i) => (getObj s i).isOpen && !(getObj s i).inline).length
+
+def runOps (s : Server) (ops : List Op) : Server := ops.foldl (fun s op => (step s op).1) s
+
+/-- **F35 (schedule).** Limit 1. Connection 1 passes the `MaximumClients` test and is parked in the
+    authentication hook; connection 2 is established; connection 1 resumes: two established
+    connections. (Replayed on the real broker on every run: corpus/C35.) -/
+theorem C35_limit_counterexample :
+    let s := runOps (init { maximumClients := 1 })
+      [.connectHold 1 { ver := 5, id := [99, 49] } 1, .connect 2 { ver := 5, id := [99, 50] }, .release 1]
+    established s = 2 ∧ s.caps.maximumClients = 1 := by decide
+
+/-- without the interleaving the second connection is refused -/
+example :
+    let s := runOps (init { maximumClients := 1 }) [.connect 1 { ver := 5, id := [99, 49] }, .connect 2 { ver := 5, id := [99, 50] }]
+    established s = 1 := by decide
+
+end Mochi.Broker
